@@ -28,6 +28,7 @@ BUDGET = {"quick": 50, "thorough": 600}
 CHUNK = 3000
 GROUP = 10
 RULE = (
+    'Groups with number%25==12: a nested plan object handed to the steps of two top-level plans in turn, every evaluation failing in the second run (delivery clauses only). '
     "groups of 10 runs share a scenario; member 0 = fault-free baseline (L evaluator calls), member j injects its fault at "
     "evaluation (j-1)*(L+1)/9 (a sweep over the run; groups with L<=8 cover every index). Fault kind per member cycles "
     "NaN set / evaluator raises / evaluator aborts / max_functions in 1..L+1. Back-end: scripted (60%), real SLSQP, L-BFGS-B, "
